@@ -410,8 +410,31 @@ def make_foreign(insane_decoy):
 
 
 def build(ctx, i):
+    """i % 5 == 2: small design with a synchronous memory (sanity_check_memory_sync has something to walk);
+    i % 5 == 4: built in two phases with another design started in between (reset_working_block, a scratch
+    design, set_working_block back) -- the finished design is still an API-built one"""
     rng = ctx.sub_rng('design', i)
-    return gen_designs.make_design(rng, wide_prob=0.1)
+    if i % 5 == 2:
+        d = gen_designs.make_design(rng, wide_prob=0.0, n_ops=rng.randint(2, 5), allow_mem=False, allow_rom=False)
+        if not d.regs:
+            r = pyrtl.Register(3, 'sr')
+            r.next <<= d.inputs[0][0:1].zero_extended(3) + r
+            d.regs.append(r)
+            o = pyrtl.Output(3, 'sr_out')
+            o <<= r
+            d.outputs.append(o)
+        gen_designs.add_sync_memory(rng, d)
+        return d
+    d = gen_designs.make_design(rng, wide_prob=0.1)
+    if i % 5 == 4:
+        block = d.block
+        pyrtl.reset_working_block()
+        scratch = gen_designs.make_design(rng, wide_prob=0.0, n_ops=rng.randint(1, 3), allow_mem=False,
+                                          allow_rom=False, name_prefix='scratch_')
+        del scratch
+        pyrtl.set_working_block(block, no_sanity_check=True)
+        gen_designs.extend_design(rng, d, k=rng.randint(2, 4))
+    return d
 
 
 def run(ctx):
@@ -475,10 +498,14 @@ def run(ctx):
                 used_before = rng.random() < 0.5
                 if used_before:
                     # the block has a history: it was iterated and simulated before being edited
-                    list(block)
-                    sim0 = pyrtl.Simulation(tracer=pyrtl.SimulationTrace(block=block), block=block)
-                    sim0.step({w.name: 0 for w in d.inputs})
-                    list(block)
+                    try:
+                        list(block)
+                        sim0 = pyrtl.Simulation(tracer=pyrtl.SimulationTrace(block=block), block=block)
+                        sim0.step({w.name: 0 for w in d.inputs})
+                        list(block)
+                    except (pyrtl.PyrtlError, pyrtl.PyrtlInternalError):
+                        ctx.count('fault_base_design_rejected', fault)   # already reported by part (a)
+                        continue
                 ctx.count('fault_after_prior_use', used_before)
                 try:
                     desc = inject(block, fault, rng)
